@@ -114,6 +114,33 @@ def element(draw, idx, parallel_bias=True, errors=False, allow_completed_by=True
 
 
 @st.composite
+def ramped_element(draw, idx):
+    """
+    scenario template: a parallel element with ramp-up-time-period (docs/track.rst: clients start gradually; requires a warm-up period of
+    at least that length and no iterations). Every task runs until its finite parameter source is exhausted (like bulk indexing), so an
+    early client of a task may well be done before a later one has started; optionally completed-by.
+    """
+    def req(service):
+        return {"pre": 0, "wire": [[0, service]], "post": 0, "outcome": "ok", "shape": "dict", "weight": 1, "unit": "ops"}
+
+    ramp = draw(st.sampled_from([1, 2, 4]))
+    n = draw(st.integers(1, 3))
+    completed_by = draw(st.sampled_from([None, "name", "name", "any"]))
+    tasks = []
+    for j in range(n):
+        partner = completed_by == "name" and j > 0
+        tasks.append({
+            "name": f"e{idx}t{j}", "clients": draw(st.integers(1, 3)), "stride": 1, "mode": "time",
+            "warmup_time_period": ramp + draw(st.sampled_from([0, 0, 1])), "time_period": None, "ramp_up": ramp,
+            "source_size": draw(st.sampled_from([40, 90])) if partner else draw(st.integers(1, 5)),
+            "requests": [req(draw(st.sampled_from([0.25, 0.5, 1.0]) if partner else st.sampled_from([1 / 64, 1 / 8, 0.5, 1.0])))],
+        })
+    if completed_by == "name" and draw(st.booleans()):
+        tasks[0]["clients"] = draw(st.sampled_from([2, 3]))  # the completing task itself: co-located clients that start at different times
+    return {"parallel": tasks, "clients": None, "completed_by": tasks[0]["name"] if completed_by == "name" else completed_by}
+
+
+@st.composite
 def two_completed_by_elements(draw, errors=False):
     """
     scenario template (state carried from one completed-by element to the next): the completing task of the first element runs on
@@ -155,6 +182,8 @@ def race_case(draw, min_elements=1, max_elements=4, errors=False, allow_complete
     template = allow_completed_by and max_elements >= 2 and draw(st.integers(0, 9)) == 0
     if template:
         schedule = draw(two_completed_by_elements(errors))
+    elif allow_completed_by and draw(st.integers(0, 7)) == 0:
+        schedule[draw(st.integers(0, n - 1))] = draw(ramped_element(99))
     n_hosts = draw(st.sampled_from([1, 1, 2, 2, 3][: 2 * max_hosts - 1]))
     hosts = [draw(st.integers(1, 4)) for _ in range(n_hosts)]
     if template:
